@@ -168,6 +168,12 @@ class VectorContainer:
                 f"Attribute with name '{name}' already defined in current object"
             )
 
+        if '_' + name in self.__dict__:
+            raise DuplicateNameError(
+                f"'{name}' is reserved: the current object already stores "
+                f"something else as '_{name}'"
+            )
+
         # Cast to a 1D array
         if isinstance(value, Sequence) and not isinstance(value, str):
             value_as_array = np.array(value).flatten()
